@@ -246,6 +246,15 @@ fn buffer_edge_family(g: &mut G, ctx: &RunCtx) -> RunReport {
     }
 }
 
+#[cfg(feature = "native")]
+fn tls_ca() -> native_tls::Certificate {
+    native_tls::Certificate::from_pem(crate::tlspeer::CA_PEM.as_bytes()).expect("CA pem")
+}
+#[cfg(all(feature = "rustls-backend", not(feature = "native")))]
+fn tls_ca() -> rustls::pki_types::CertificateDer<'static> {
+    rustls_pemfile::certs(&mut crate::tlspeer::CA_PEM.as_bytes()).next().unwrap().unwrap()
+}
+
 pub fn scenario(g: &mut G, ctx: &RunCtx) -> RunReport {
     if g.chance(1, 6) {
         g.probe("prepared-request-sent-again-after-failure");
@@ -284,8 +293,28 @@ pub fn scenario(g: &mut G, ctx: &RunCtx) -> RunReport {
     if times > 1 {
         g.probe("prepared-request-sent-three-times");
     }
+    // (no draw) the same request over https, the upload interrupted twice in a row now and then (after the
+    // handshake): what the peer decrypts is judged exactly like what a plain peer receives
+    let tls = times == 1 && !body_fails && (plan.headers.len() + url.len()) % 6 == 1;
+    let url = if tls { plan.url(&format!("https://{}", bodyx::TLS_HOST_NAME)) } else { url };
+    let mut faults = faults;
+    if tls {
+        g.probe("request-sent-over-tls");
+        // (OpenSSL treats an interrupted write as fatal for the session - upstream, and no property of this
+        // client; the interruptions are for the rustls build, which resumes)
+        faults = ConnFaults { window: 64 * 1024, max_write: faults.max_write.max(if faults.max_write == 0 { 0 } else { 512 }), ..Default::default() };
+        #[cfg(all(feature = "rustls-backend", not(feature = "native")))]
+        {
+            faults.write_eintr = match url.len() % 3 {
+                0 => vec![],
+                1 => vec![6, 7, 15, 16],
+                _ => vec![5, 9, 10, 11, 30],
+            };
+        }
+    }
     let ran = bodyx::run_origin(&script, &faults, ctx, || {
         let rb = plan.new_builder(&url);
+        let rb = if tls { rb.add_root_certificate(tls_ca()).proxy_settings(attohttpc::ProxySettings::builder().build()) } else { rb };
         if times > 1 {
             let res = plan.send_prepared(rb, times);
             return match res.iter().find(|r| r.is_err()) {
@@ -352,6 +381,24 @@ pub fn scenario(g: &mut G, ctx: &RunCtx) -> RunReport {
                         format!("the body's source failed after {} octets, yet the peer received a complete chunked request with a {}-octet body and its terminating chunk", sent_before, r.body.len()),
                     ),
                     _ => Verdict::Pass,
+                }
+            } else if tls && res.is_err() && !faults.write_eintr.is_empty() {
+                // an interrupted write inside a TLS session may end the request with an error (the TLS layers
+                // do not all resume); what must not happen is a request that "succeeds" with other octets
+                Verdict::Pass
+            } else if tls {
+                // what arrived inside the TLS session, as the peer parsed it
+                let extra: usize = ran.seen.extra_bytes.iter().map(|(_, n)| *n).sum();
+                match ran.seen.requests.first() {
+                    None => violation(format!("request-incomplete:tls:{}", plan.body_name()), format!("no complete request arrived inside the TLS session (send result {:?})", res)),
+                    Some((_, Err(m))) => violation(format!("request-malformed:tls:{}", plan.body_name()), format!("{} (send result {:?})", m, res)),
+                    Some((_, Ok(r))) => match reqgen::check_request(&plan, r, extra, None, true) {
+                        Err((c, m)) => violation(format!("tls:{}", c), m),
+                        Ok(()) => match res {
+                            Ok(()) => Verdict::Pass,
+                            Err(e) => violation(format!("send-failed:tls:{}:{}", e, plan.body_name()), format!("send failed with {} although the peer answered a well-formed request", e)),
+                        },
+                    },
                 }
             } else {
                 let bytes = ran.history.conns[0].client_bytes();
